@@ -37,7 +37,56 @@ func safeMarshal(ti gocql.TypeInfo, v interface{}) (b []byte, err error, pan int
 		}
 	}()
 	b, err = gocql.Marshal(ti, v)
+	if err == nil && len(b) > 0 {
+		retain(b, nil, func() string { return fmt.Sprintf("Marshal(%v, %T)", ti, v) })
+	}
 	return
+}
+
+// Retention check: bytes handed out by Marshal and byte slices / big integers filled in by Unmarshal
+// belong to the caller; a later call (on this or another goroutine) must not change them. Catches
+// shared scratch buffers and pooled results that single-call comparisons cannot see.
+type retained struct {
+	b    []byte
+	big  *big.Int
+	snap string
+	desc func() string
+}
+
+var (
+	retMu  sync.Mutex
+	retBuf [24]retained
+	retIdx int
+	retR   *report.Run // set by main
+)
+
+func retain(b []byte, n *big.Int, desc func() string) {
+	retMu.Lock()
+	defer retMu.Unlock()
+	for i := range retBuf {
+		e := &retBuf[i]
+		if e.desc == nil {
+			continue
+		}
+		now := ""
+		if e.big != nil {
+			now = e.big.String()
+		} else {
+			now = string(e.b)
+		}
+		if now != e.snap && retR != nil {
+			retR.Violation("retained-result-changed-by-a-later-call", fmt.Sprintf("the result of %s changed from %x to %x after later Marshal/Unmarshal calls (shared buffer?)", e.desc(), e.snap, now), nil)
+			e.desc = nil
+		}
+	}
+	e := retained{b: b, big: n, desc: desc}
+	if n != nil {
+		e.snap = n.String()
+	} else {
+		e.snap = string(b)
+	}
+	retBuf[retIdx%len(retBuf)] = e
+	retIdx++
 }
 
 func safeUnmarshal(ti gocql.TypeInfo, data []byte, dst interface{}) (err error, pan interface{}) {
@@ -47,6 +96,20 @@ func safeUnmarshal(ti gocql.TypeInfo, data []byte, dst interface{}) (err error, 
 		}
 	}()
 	err = gocql.Unmarshal(ti, data, dst)
+	if err == nil {
+		switch d := dst.(type) {
+		case *[]byte:
+			if len(*d) > 0 {
+				retain(*d, nil, func() string { return fmt.Sprintf("Unmarshal(%v) into *[]byte", ti) })
+			}
+		case *big.Int:
+			retain(nil, d, func() string { return fmt.Sprintf("Unmarshal(%v) into *big.Int", ti) })
+		case **big.Int:
+			if *d != nil {
+				retain(nil, *d, func() string { return fmt.Sprintf("Unmarshal(%v) into **big.Int", ti) })
+			}
+		}
+	}
 	return
 }
 
